@@ -3,7 +3,7 @@
 (* Layer A for property C16: the pronunciation dictionary as an append-    *)
 (* only table of entries, and what an addition is allowed to do to it.     *)
 (* Nothing here knows about slots, reallocation, hash buckets, alternate   *)
-(* links or triphone tables.                                               *)
+(* links, tokeniser loops or how triphone tables are filled.               *)
 (*                                                                         *)
 (* A spelling is a sequence of bytes, a pronunciation a sequence of phone  *)
 (* names.  A dictionary value D is a record                                *)
@@ -69,6 +69,45 @@ AltsOf(D, b) == {e.id : e \in {x \in Entries(D) : x.base = b /\ x.id # b}}
 ChainOK(alts, chain) ==
     /\ Len(chain) = Cardinality(alts)
     /\ {chain[i] : i \in DOMAIN chain} = alts
+
+(***************************************************************************)
+(* What the caller hands over is a phone STRING.  The pronunciation it     *)
+(* names is the sequence of its maximal runs of non-blank bytes: leading,  *)
+(* trailing and repeated blanks (space, tab, CR, LF) mean nothing, so      *)
+(* every layout of the same phones is the same addition.                   *)
+(***************************************************************************)
+WhiteSpace == {32, 9, 10, 13}
+IsWS(b) == b \in WhiteSpace
+TokenStarts(raw) == {i \in DOMAIN raw : ~IsWS(raw[i]) /\ (i = 1 \/ IsWS(raw[i - 1]))}
+TokenEnd(raw, i) == CHOOSE j \in i..Len(raw) : /\ \A k \in i..j : ~IsWS(raw[k])
+                                               /\ (j = Len(raw) \/ IsWS(raw[j + 1]))
+PhoneTokens(raw) ==
+    LET st == TokenStarts(raw)
+        kth(k) == CHOOSE i \in st : Cardinality({j \in st : j < i}) = k - 1
+    IN [k \in 1..Cardinality(st) |-> SubSeq(raw, kth(k), TokenEnd(raw, kth(k)))]
+
+(***************************************************************************)
+(* "Usable immediately": a search reads, for the first and for the last    *)
+(* phone of a word, one acoustic model (senone sequence) per neighbouring  *)
+(* phone.  An entry is REALISED when each of them is the model the model   *)
+(* definition assigns to the entry's OWN pronunciation in that context -   *)
+(* which is what a word read from the dictionary file gets.  The           *)
+(* observation is <<nb, ne, ns, ...>>: the number of neighbouring phones   *)
+(* for which the two differ, for the first phone, the last phone, and the  *)
+(* only phone of a one-phone word (-1: not applicable to this length).     *)
+(***************************************************************************)
+Realised(pron, cnt) == IF Len(pron) >= 2 THEN cnt[1] = 0 /\ cnt[2] = 0 ELSE cnt[3] = 0
+
+(***************************************************************************)
+(* A dictionary is a VALUE: how it came about - read from a file, or       *)
+(* reached by additions - is not part of it, and recognition is a function *)
+(* of (dictionary value, grammar, audio).  Two decoders that agree on the  *)
+(* three agree on hypothesis, score and segmentation.  `same' = number of  *)
+(* entries of D the other dictionary has with equal spelling,              *)
+(* pronunciation and base spelling; `nOther' its size.                     *)
+(***************************************************************************)
+SameValue(D, nOther, same) == nOther = D.n /\ same = D.n
+SameResult(r1, r2) == r1 = r2
 
 (* the spelling under which a word is reported in results: the spelling of its base entry *)
 EntryById(D, i) == CHOOSE e \in Entries(D) : e.id = i
